@@ -642,7 +642,7 @@ class Parser:
                 flags |= self.RE_FLAG_MAP[flag]
         try:
             return RegexLiteral(value=re.compile(pattern, flags))
-        except (re.error, OverflowError) as err:
+        except (re.error, OverflowError, ValueError) as err:
             raise JSONPathSyntaxError(
                 f"invalid regular expression: {err}", token=stream.current
             ) from err
